@@ -536,3 +536,67 @@ Fixpoint written (heap : list bytes) (evs : list oev) : list msg :=
   | OFill i q :: rest => written (upd heap i q) rest
   | OSend :: rest => written heap rest
   end.
+
+(* ------------------------------------------------------------------ *)
+(* The identity of a virtual connection is the PAIR of its two addresses.  [pair_key] is
+   that pair in the form Connections.Get compares (two separate String() comparisons):
+   ((ip in 16-byte form, port), (ip in 16-byte form, port)); equality on it is structural. *)
+Definition pkey : Type := (bytes * Z) * (bytes * Z).
+Definition pair_key (l r : addr) : option pkey :=
+  match addr_key l, addr_key r with
+  | Some a, Some b => Some (a, b)
+  | _, _ => None
+  end.
+Definition pkey_eqb (a b : pkey) : bool := key_eqb (fst a) (fst b) && key_eqb (snd a) (snd b).
+Definition opkey_eqb (a b : option pkey) : bool :=
+  match a, b with
+  | Some x, Some y => pkey_eqb x y
+  | None, None => true
+  | _, _ => false
+  end.
+
+(* a session in which the agent has announced the pairs [ps], in this order *)
+Definition hello_step (s : sess) (p : addr * addr) : sess :=
+  fst (fst (fst (serv_msg s (MHello (fst p) (snd p))))).
+Definition announce (ps : list (addr * addr)) : sess := fold_left hello_step ps sess0.
+
+(* Connections.Get as it would be with ONE derived key per connection, computed by [kf]
+   and compared with [keq] (e.g. a string built from both addresses): the first
+   registered connection whose key equals the key of the message's pair. *)
+Section Keyed.
+Variable K : Type.
+Variable keq : K -> K -> bool.
+Variable kf : addr -> addr -> K.
+Fixpoint get_by (cs : list vconn) (reg : list nat) (l r : addr) : option nat :=
+  match reg with
+  | [] => None
+  | i :: reg' =>
+    let c := nth i cs dummy_vc in
+    if keq (kf (vc_l c) (vc_r c)) (kf l r) then Some i else get_by cs reg' l r
+  end.
+End Keyed.
+
+(* net.JoinHostPort(IP.String(), port) as text (ASCII codes) for 4-byte IPs:
+   "a.b.c.d:port" in decimal without leading zeros.  (Other IP lengths are printed by
+   Go in bracketed hexadecimal groups; here they get a bracketed placeholder - only the
+   4-byte form is used, and only that form is compared with Go's text by the harness.) *)
+Fixpoint dec_loop (fuel : nat) (n : N) (acc : bytes) : bytes :=
+  match fuel with
+  | O => acc
+  | S f =>
+    let acc' := (48 + n mod 10)%N :: acc in
+    if (n / 10 =? 0)%N then acc' else dec_loop f (n / 10)%N acc'
+  end.
+Definition dec_render (n : N) : bytes := dec_loop 20 n [].
+Definition ip_render (ip : bytes) : bytes :=
+  match ip with
+  | [a; b; c; d] => dec_render a ++ [46%N] ++ dec_render b ++ [46%N] ++ dec_render c ++ [46%N] ++ dec_render d
+  | _ => [91%N] ++ ip ++ [93%N]
+  end.
+Definition addr_render (a : addr) : bytes :=
+  match a with
+  | ATcp ip p | AUdp ip p => ip_render ip ++ [58%N] ++ dec_render (Z.to_N p)
+  | ANil => []
+  end.
+(* the two texts glued together WITHOUT a separator: the key the model must not use *)
+Definition concat_key (l r : addr) : bytes := addr_render l ++ addr_render r.
